@@ -2366,6 +2366,18 @@ Proof.
   apply (sizes_eq_input_sizes s_0 0); try reflexivity; try lia.
 Qed.
 
+(* the case of seeded defect C13-6: the text "-5" of a single int32 argument is
+   the NEGATIVE big.Int -5 (BitLen 3); over the 32 wires of the argument
+   (Bit(i), i < Type.Bits, two's complement) it has the bits of 0xfffffffb,
+   exactly what Set(int32(-5)) writes; a consumer that stops at BitLen reads 3 *)
+Example ex_negative_text_full_width :
+  parse (leaf_arg (TyInt 32)) [[45; 53]%N] = Ok (-5) /\
+  set (leaf_arg (TyInt 32)) [GInt (-5)] = Ok 4294967291 /\
+  wires (-5) 32 = wires 4294967291 32 /\
+  from_bits (wires (-5) 32) = 4294967291 /\
+  from_bits (wires (-5) (bit_len (-5))) = 3.
+Proof. repeat split; vm_compute; reflexivity. Qed.
+
 (* ------------------------------------------------------------------ *)
 (** * The string constants of the model are the Go literals *)
 Module StrConst.
